@@ -22,10 +22,17 @@ using namespace vh;
 struct World;
 static World * g_world = nullptr;
 
+// ledger: every CbFn object alive (the library keeps exactly one per attached callback at quiescence)
+static long g_liveCb = 0, g_cbDoubleDtor = 0;
 struct CbFn {
 	long cb;
 	long hid;
 	int list;
+	unsigned magic;
+	CbFn(long cb_, long hid_, int list_) : cb(cb_), hid(hid_), list(list_), magic(0xC0FFEE) { ++g_liveCb; }
+	CbFn(const CbFn & o) : cb(o.cb), hid(o.hid), list(o.list), magic(0xC0FFEE) { ++g_liveCb; }
+	CbFn & operator=(const CbFn &) = default;
+	~CbFn() { if(magic != 0xC0FFEE) ++g_cbDoubleDtor; else { magic = 0xDEAD; --g_liveCb; } }
 	void operator()(int arg) const;
 };
 
@@ -251,6 +258,7 @@ struct World {
 				+ std::to_string(sp->counter) + "," + std::to_string(fnOf(sp->callback)->cb);
 		}
 		out.push_back(nodes);
+		out.push_back("ledger " + std::to_string(g_liveCb) + " " + std::to_string(g_cbDoubleDtor));
 	}
 	std::string opt(const void * p) { return p ? std::to_string(idOfNode(p)) : std::string("-"); }
 };
@@ -272,6 +280,7 @@ void CbFn::operator()(int arg) const {
 int main() {
 	auto scripts = readScripts(std::cin);
 	for(auto & s : scripts) {
+		g_liveCb = 0; g_cbDoubleDtor = 0;
 		World w(s);
 		g_world = &w;
 		std::printf("--- %s\n", s.name.c_str());
